@@ -785,6 +785,7 @@ def flStep (d : FlDrv) (line : String) : FlDrv × String :=
       let x := if f.startsWith "b" then (if x == 0 then 0 else 1) else x
       ({ flDeclare d f with fl := Builtin.setF d.fl (flagIdx f) x }, "ok")
     | ["reraiser"] => ({ d with reraise := true }, "ok")
+    | ["thread"] => (d, "ok")   -- a second thread in the process: no matter to what the actions do
     | ["raise"] =>
       -- the signal is blocked while its handler runs: a raise from inside a delivery is delivered
       -- when that delivery has returned, i.e. two deliveries back to back (`Builtin.run`)
